@@ -119,9 +119,9 @@ def _ndegen_lines(ndegen):
 
 
 def ref_write_tb(path, lattice, iRvec, ham, aa_conv2, ndegen):
-    """`seedname_tb.dat` as written by Wannier90's hamiltonian_write_tb: the stored numbers are
-    X(R)*ndegen(R) ... wannier90 stores X(R) and the *reader* divides by ndegen, so a file whose
-    entries are X*ndegen with weights ndegen describes X.  Column-major over (m, n): m runs fastest."""
+    """`seedname_tb.dat` in the layout of Wannier90's hamiltonian_write_tb.  A reader must divide the
+    stored numbers by the degeneracy weight ndegen(R) (that is how wannier-berri defines its X(R)), so
+    the file holds X(R)*ndegen(R) together with the weights ndegen.  m runs fastest over (m, n)."""
     nR, nw = ham.shape[0], ham.shape[1]
     with open(path, "w") as f:
         f.write("reference writer of the verification harness\n")
@@ -161,3 +161,55 @@ def ref_write_hr(seedname, iRvec, ham, ndegen, centres):
     with open(seedname + "_wannier_centre_WT_format.dat", "w") as f:
         for c in list(centres[::2]) + list(centres[1::2]):
             f.write(" ".join(repr(float(x)) for x in c) + "\n")
+
+
+# ---- multiprocessing seam of the Wannier90 text readers ----------------------------------------------
+
+class _SerialPool:
+    """in-process stand-in for multiprocessing.Pool (map / close / join / terminate)"""
+
+    def __init__(self, *args, **kwargs):
+        pass
+
+    def map(self, func, iterable, chunksize=None):
+        return [func(x) for x in iterable]
+
+    def close(self):
+        pass
+
+    def join(self):
+        pass
+
+    def terminate(self):
+        pass
+
+
+class _MPProxy:
+    def __init__(self, real):
+        self._real = real
+        self.pools_created = 0
+
+    def Pool(self, *args, **kwargs):
+        self.pools_created += 1
+        return _SerialPool()
+
+    def __getattr__(self, name):
+        return getattr(self._real, name)
+
+
+@contextlib.contextmanager
+def serial_pools():
+    """AMN.from_w90_file / MMN.from_w90_file create a multiprocessing.Pool per call (a fork per call);
+    inside this context the pool is replaced by an in-process map.  Used only where thousands of tiny
+    files are read (impulse loops); the other cases use the real pools with npar in {1, 2}."""
+    import multiprocessing as real
+    import wannierberri.w90files.amn as amn
+    import wannierberri.w90files.mmn as mmn
+    proxy = _MPProxy(real)
+    old = (amn.multiprocessing, mmn.multiprocessing)
+    amn.multiprocessing = proxy
+    mmn.multiprocessing = proxy
+    try:
+        yield proxy
+    finally:
+        amn.multiprocessing, mmn.multiprocessing = old
